@@ -512,3 +512,28 @@ Proof.
   intro H. rewrite html_text_preserved.
   exact (f_equal vis (text_no_removable remove void l H [] None)).
 Qed.
+
+(* ------------------------------------------------------------------ visible text only grows *)
+Lemma text_run_extends remove void l : forall st : sk str,
+  exists s', vis (run remove void t_start t_end t_data st l) = vis st ++ s'.
+Proof.
+  induction l as [|e l IH]; intro st.
+  - exists []. cbn. rewrite app_nil_r. reflexivity.
+  - rewrite run_cons. destruct (IH (step remove void t_start t_end t_data st e)) as [s1 H1].
+    assert (H0 : exists s0, vis (step remove void t_start t_end t_data st e) = vis st ++ s0).
+    { destruct st as [v d t]. destruct e as [g a|g|x|c]; cbn [step depth vis stag].
+      - destruct d as [|d].
+        + destruct (mem_str g remove); [destruct (mem_str g void)|]; cbn [vis]; exists []; unfold t_start; rewrite app_nil_r; reflexivity.
+        + destruct (opt_str_eqb t g); cbn [vis]; exists []; rewrite app_nil_r; reflexivity.
+      - destruct d as [|d]; [|destruct (opt_str_eqb t g)]; cbn [vis]; exists []; unfold t_end; rewrite app_nil_r; reflexivity.
+      - destruct d as [|d]; cbn [vis]; [exists x; reflexivity | exists []; rewrite app_nil_r; reflexivity].
+      - exists []. cbn [vis]. rewrite app_nil_r. reflexivity. }
+    destruct H0 as [s0 H0]. exists (s0 ++ s1). rewrite H1, H0, app_assoc. reflexivity.
+Qed.
+
+Lemma html_text_monotone remove void l l' :
+  exists s', flat_node (tree_of (vis (html_build remove void (l ++ l'))))
+             = flat_node (tree_of (vis (html_build remove void l))) ++ s'.
+Proof.
+  rewrite !html_text_preserved. unfold visible_text. rewrite run_app. apply text_run_extends.
+Qed.
